@@ -163,6 +163,36 @@ def check_prehash(ctx, ci):
         from_dict_values = it.endswith('.values()')
         from_dict_keys = it.endswith('.keys()') or it.endswith('.items()') and False
         hashed = {txt(c.args[0]) for c in ast.walk(lp) if isinstance(c, ast.Call) and call_name(c) == 'hash' and c.args}
+        # ... or hands them to a private helper that hashes its argument / every element of its argument
+        for c in ast.walk(lp):
+            if not isinstance(c, ast.Call):
+                continue
+            h = None
+            if isinstance(c.func, ast.Name) and c.func.id.startswith('_'):
+                h = up.module.functions.get(c.func.id)
+            elif isinstance(c.func, ast.Attribute) and isinstance(c.func.value, ast.Name) and c.func.value.id in ('self', 'cls', ci.name) \
+                    and c.func.attr.startswith('_'):
+                h = ci.own(c.func.attr)
+            if not isinstance(h, FuncInfo):
+                continue
+            params = [a.arg for a in h.node.args.args]
+            if params and params[0] in ('self', 'cls') and isinstance(c.func, ast.Attribute) and not any(
+                    isinstance(d, ast.Name) and d.id == 'staticmethod' for d in h.node.decorator_list):
+                params = params[1:]
+            whole = {txt(x.args[0]) for x in ast.walk(h.node) if isinstance(x, ast.Call) and call_name(x) == 'hash' and x.args}
+            each = set()
+            for f in ast.walk(h.node):
+                if isinstance(f, ast.For) and isinstance(f.iter, ast.Name) and isinstance(f.target, ast.Name) and f.body and \
+                        isinstance(f.body[0], ast.Expr) and isinstance(f.body[0].value, ast.Call) and call_name(f.body[0].value) == 'hash' \
+                        and f.body[0].value.args and txt(f.body[0].value.args[0]) == f.target.id:
+                    each.add(f.iter.id)
+            for prm, arg in zip(params, c.args):
+                if isinstance(arg, ast.Starred):
+                    break
+                if prm in whole and isinstance(arg, ast.Name):
+                    hashed.add(arg.id)
+                if prm in each and isinstance(arg, (ast.Tuple, ast.List)):
+                    hashed |= {e.id for e in arg.elts if isinstance(e, ast.Name)}
         need = [nm for nm in names if nm != '_']
         ok = all(nm in hashed for nm in need)
         ctx.ob('T2.prehash', up.fq, 'the loop over `%s` hashes every item it binds before anything is stored (a TypeError leaves the '
